@@ -2159,10 +2159,10 @@ namespace Clipper2Lib {
       e->prev_in_sel = e->prev_in_ael;
       e->next_in_sel = e->next_in_ael;
       e->jump = e->next_in_sel;
-      if (e->join_with == JoinWith::Left)
-        e->curr_x = e->prev_in_ael->curr_x; // also avoids complications
-      else
-        e->curr_x = TopX(*e, top_y);
+      // joined edges get their own position too: copying the left neighbour's
+      // curr_x put an edge that ends on this scanline at the wrong side of
+      // other edges (if necessary joins are split in IntersectEdges)
+      e->curr_x = TopX(*e, top_y);
       e = e->next_in_ael;
     }
   }
